@@ -135,7 +135,9 @@ def recon_tolerance(spec, ax, w, dt):
     if den == 0 or num == 0:
         return float("inf")
     cond = D * (2.0 + th * th + gd * th) / abs(den) + D * (abs(a) * dt * dt + 2.0 * abs(b) * dt) / abs(num) + D
-    return 1e-9 + 64.0 * eps * cond
+    # frequencies far beyond the grid's Nyquist limit (w*dt >> 1) are still judged, but rebuilding chi from the
+    # coefficients subtracts numbers of size (w*dt)^2 there (observed 1.4e-9 at w*dt = 30)
+    return (1e-9 + 64.0 * eps * cond) * max(1.0, th * th)
 
 
 # ------------------------------------------------------------------------------------------------
@@ -617,7 +619,8 @@ def _pad(case, r):
                     r.violate("zero-padded slots contribute a non-zero susceptibility", {**ctx, "material": name, "got": [[float(v.real), float(v.imag)] for v in np.ravel(full)]})
                 continue
             own = np.asarray(_sfc(c1[row, :n_p], c2[row, :n_p], c3[row, :n_p], w, dt, c4=c4[row, :n_p]))
-            if full.shape == own.shape and np.array_equal(full, own):
+            # zero slots add exact zeros, but they may change the association of the float sum (1 ulp)
+            if full.shape == own.shape and np.allclose(full, own, rtol=1e-13, atol=0.0):
                 r.ok(f"pad:{cls}:{ncomp}/{ccomp}:pad={slots - n_p}")
             else:
                 r.violate("zero-padded slots change the reconstructed susceptibility", {**ctx, "material": name, "omega": w, "with_padding": [[float(v.real), float(v.imag)] for v in np.ravel(full)], "without": [[float(v.real), float(v.imag)] for v in np.ravel(own)]})
